@@ -16,6 +16,7 @@ ASSUMPTIONS = [
     "problems with strictly positive contributions (d/2), film coefficients {0.5, 2} per side, default or isothermal utilities beyond the range, lattice stream multisets with both kinds of stream",
     "reference area: Bath formula on the enthalpy intervals of balanced composite curves rebuilt independently from the input streams and the ASSIGNED utility duties at real temperatures "
     "(sum over intervals of (sum_j q_ij / h_j) / LMTD_i; LMTD by math.log); agreement demanded to 1e-6 relative",
+    "a second instantiation with 7-decimal numbers probes the 6-dp rounding of the temperature grid (agreement demanded to 1e-4 there)",
     "cost laws: N(a + b (A/N)^c); the capital-recovery factor must make the discounted annuities sum to one; both checked on parameter lattices",
 ]
 
@@ -174,7 +175,7 @@ def run(case, res: Result):
         return
     if ref is None:
         res.stats["reference_undefined(nonpositive driving force)"] += 1
-    elif abs(area - ref) > 1e-6 * ref + 1e-9:
+    elif abs(area - ref) > (1e-6 if _latent_extreme(prob) == "general" else 1e-4) * ref + 1e-9:
         gap = "temperature-gap-inside-enthalpy-range" if has_gap else "no-gap"
         res.violate("area_ne_definition", case, dict(detail, reference=ref, relative_error=(area - ref) / ref, intervals=n_int,
                                                      hot=[list(map(float, e)) for e in hot], cold=[list(map(float, e)) for e in cold]),
@@ -194,7 +195,22 @@ def run(case, res: Result):
 
 
 def _latent_extreme(prob):
+    """cause class of an exception: do the input temperatures carry more decimals than the 6 the temperature grid is rounded to?"""
+    for s in prob["streams"]:
+        for k in ("t_supply", "t_target", "dt_cont"):
+            if round(s[k], 6) != s[k]:
+                return "temperatures-with-more-than-6-decimals"
     return "general"
+
+
+DECIMALS_INST = (33.3333333, 7.7777777, 0.3333333, 3.1415926)
+
+
+def decimals_cases(tier, inst):
+    """the same enumeration on an instantiation whose numbers have 7 decimals (e.g. temperatures converted from other units)"""
+    for k, c in enumerate(cases("quick", DECIMALS_INST)):
+        if tier == "thorough" or k % 2 == 0:
+            yield c
 
 
 # ------------------------------------------------------------------ direct calls on lattices
@@ -242,6 +258,13 @@ SUBCHECKS = {
         cases=cases, run=run,
         bound=lambda t: "multisets <=2 (K=4, dt=d/2, with latent) x 2 film-coefficient pairs x {default, isothermal utilities} + 3-multisets" if t == "quick"
         else "multisets <=3 (K=4, dt=d/2, with latent) x 2 film-coefficient pairs x 2 utility sets",
+    ),
+    "decimals": SubCheck(
+        name="decimals",
+        describe="the service seam on an instantiation with 7-decimal temperatures and duties: area targeting must not raise and the area must agree with the reference to 1e-4",
+        rule="as 'service'",
+        cases=decimals_cases, run=run,
+        bound=lambda t: "every second case of the quick service enumeration on the 7-decimal instantiation" if t == "quick" else "the quick service enumeration on the 7-decimal instantiation",
     ),
     "costing": SubCheck(
         name="costing",
